@@ -160,6 +160,10 @@ func H_C15_parse() {
 		if extra == 0 {
 			tail = verif.Choose("bytes-after-the-document", 5)
 		}
+		if extra == 0 && tail == 0 {
+			// the root key spelled in another letter case (alone, or next to the real one): not the key 'orbiter'
+			extra = -verif.Choose("root-key-in-another-letter-case", 4)
+		}
 		memo = verif.EncodeMemoTail(&core.PayloadWrapper{Orbiter: pl}, extra, tail)
 	default:
 		memo = []string{"", "", "null", "[]", "{}", `{"orbiter":null}`, `{"orbiter":1}`, `{"other":{}}`, `{"orbiter":{},"orbiter2":{}}`}[kind]
